@@ -355,6 +355,22 @@ def rand_fracnest(rng, atoms, depth):
     return ["frac", rand_fracnest(rng, atoms, depth - 1), rand_fracnest(rng, atoms, depth - 1)]
 
 
+def rand_repeated_fraction(rng, atoms):
+    """(N1/D1) / (N2/D2) (or a product of two such fractions) whose four parts are multisets over a small pool of atoms,
+    so that after cross-multiplication one factor stands several times on one side and at least once on the other: the
+    cancellation must remove one copy per copy, never all of them."""
+    def part(lo):
+        k = rng.randint(lo, 3)
+        xs = [rng.choice(atoms) for _ in range(k)]
+        if not xs:
+            return ["one"]
+        return xs[0] if len(xs) == 1 else ["prod", xs]
+
+    f1 = ["frac", part(1), part(0)]
+    f2 = ["frac", part(1), part(0)]
+    return ["frac", f1, f2] if rng.random() < 0.7 else ["prod", [f1, f2]]
+
+
 def _q_names(ast):
     t = ast[0]
     if t == "q":
